@@ -189,6 +189,16 @@ PROPS = {
                  "the witness search (Go transcription of the contract) is untrusted: the Lean driver validates every witness"],
         explanation="LinThm.order_is_sequential / order_respects_real_time (any object whose operations take effect in one atomic step is linearizable in step order) + C03 refinements + C02 contract facts for all histories (fresh_versions, cas_same_version_at_most_once, racing_creators_one_winner, loser_changes_nothing). For Redis the multi-command operations (Create retry loop, CAS WATCH/EXEC retry loop) are covered by per-history Lean-validated witnesses, not by an unbounded theorem",
     ),
+    "C07": dict(
+        lean=["GolibsVerif.Props.C07", "GolibsVerif.Props.C07Exec"],
+        seq=[],
+        go_cmds=("seq", "conc"),
+        conc=[dict(comp="waiters", driver="waittrace", decisive=lambda d: d["op"].startswith("mon C07") or d["op"].startswith("ret "))],
+        rule="cases = scripts on the REAL in-memory storage with 1..3 waiter goroutines on 1..2 keys: a prefix of writes (some with a 12 ms expiry), waiters started with the current / a stale / a never-issued version, then 3..9 actions from {start waiter, cancel waiter i, Put, Put with expiry, Create, CasByVersion with the current or a stale version, Delete, let the record expire}; after each action the harness waits until every waiter has returned or is parked in its select (goroutine-stack inspection); every critical section of inmem.go (announced by the instrumented lock, attributed to its goroutine, with the waiter table as seen under the lock) becomes a trace event and the Lean driver replays the trace through Waiters.Exec, comparing the waiter table after every section and every waiter's verdict; leftover waiters are cancelled at the end and the table must be empty; non-trivial = a mutation or cancellation hit a key on which waiters were parked; distinct by hash of the event list",
+        assumptions=["in-memory backend (the Redis backend polls Get: its verdicts are covered per poll by C03/C06)", "promptness is measured by the settle deadline (2 s), not proved"],
+        trusted=["modelled, not verified: Go select / channel close semantics, sync.Mutex; the textual instrumenter announces every lock/unlock site of the CURRENT inmem.go with its function name and ordinal (WaitForVersionChange#1 = check, #2 = ctx.Done path, #3 = expiry path)", "C07Exec.handle_sound / replay_reach: every accepted trace is a Waiters.Step execution"],
+        explanation="C07.return_sound, no_lost_wakeup, table_exact, no_bookkeeping_left, cancel_isolated, wake_enabled for any number of waiters/keys/writers and every interleaving of the critical sections",
+    ),
 }
 
 # ------------------------------------------------------------------------------------------------
@@ -216,6 +226,7 @@ MANIFEST_TEXT = {
 }
 
 MANIFEST_TEXT.update({
+    "C07": _t("Lean proofs on a small-step model of inmem's WaitForVersionChange + mutators (any number of waiters, keys, writers): verdict soundness, no lost wake-up (a waiter parked on an open channel implies the record still has the awaited version and the channel is the key's current waiter record), exact waiter counts, empty table when nobody waits, isolation of a cancelling waiter; tied to the code by replaying the real critical sections (instrumented lock + goroutine attribution + table snapshots) through the executable model, proved sound w.r.t. the step relation", "Lean 4 inductive-invariant proofs over a small-step model + trace refinement of real critical sections"),
     "C02": _t("Lean: generic theorem that an object whose operations each take effect in one atomic step is linearizable in step order (real-time respecting, sequentially legal), contract theorems for all histories (fresh versions, at most one CAS winner per version, one winning creator, losers change nothing); in-memory backend: regenerated skeleton fact (each method = one lock region) + instrumented critical-section order replayed by the Lean driver; Redis: every explored concurrent history gets a linearization witness that the Lean driver validates against the contract, incl. forced WATCH/EXEC races. Unbounded for the in-memory backend; per-history certification for the Redis multi-command operations", "Lean 4 linearizability theorem for atomic-step objects + contract proofs + Lean-validated linearization witnesses of real concurrent histories"),
     "C20": _t("Lean proof on a lexical path / small file-system model that UnzipToFolder creates files and directories only inside the destination for ANY archive, and that ZipFolder∘UnzipToFolder reproduces exactly the selected files (path and content); tied to files.go by a differential run on a sandboxed real file system (hostile archives, random trees, all filter/recursive/spelling combinations) with Go-side confinement and round-trip monitors", "Lean 4 proofs over a path/file-system model + model/code correspondence on the real file system"),
     "C01": _t("Lean proof of mutual exclusion for the N-process transition system of kvlock.go (any number of goroutines/Lockers/providers, every interleaving at storage-call granularity, cancellation anywhere, unbounded request-lost/reply-lost faults) under the explicit lease assumption; tied to the code by trace refinement: real kvsLock goroutines run under a controlled scheduler and every recorded trace is replayed through the executable model, which is proved sound w.r.t. the transition relation (C01Exec)", "Lean 4 inductive-invariant proof over an N-process transition system + trace refinement of real executions"),
@@ -224,7 +235,6 @@ MANIFEST_TEXT.update({
 })
 
 NOT_CLAIMED = {
-    "C07": "in progress (waiter small-step model + tie not built yet)",
     "C09": "in progress (concurrent LRU model + tie not built yet)",
     "C13": "in progress (worker-pool model + tie not built yet)",
 }
